@@ -185,11 +185,8 @@ theorem contexts_sim {k ρ M M'} (h : Sim k ρ M M') (m : Nat) (hm : m ∈ M.mod
   | true =>
     cases h2 : k.nested with
     | true =>
-      cases h3 : k.nestedModelCtx with
-      | false => simp [h.mctx]
-      | true =>
-        simp only [if_true, h.ctx h1 m hm, h.mctx, List.isEmpty_map]
-        split <;> rfl
+      simp only [if_true, h.ctx h1 m hm, h.mctx, List.isEmpty_map]
+      split <;> rfl
     | false => simp [h.ctx h1 m hm]
 
 theorem stateOf_sim {k ρ M M'} (h : Sim k ρ M M') (m : Nat) (hm : m ∈ M.models) :
@@ -480,13 +477,10 @@ theorem contexts_sub (k : Kind) (M : PM) (m l : Nat) (h : l ∈ contexts k M m) 
   | true =>
     cases hn : k.nested with
     | true =>
-      cases hc : k.nestedModelCtx with
-      | false => simp [hl, hn, hc] at h; exact Or.inl h
-      | true =>
-        simp only [hl, hn, hc, if_true] at h
-        split at h
-        · exact Or.inl h
-        · exact Or.inr (lookupD_sub m l _ h)
+      simp only [hl, hn, if_true] at h
+      split at h
+      · exact Or.inl h
+      · exact Or.inr (lookupD_sub m l _ h)
     | false => simp [hl, hn] at h; exact Or.inr (lookupD_sub m l _ h)
 
 theorem trigger_unheld (k : Kind) (δ : Delta) (held : List Nat) (M : PM) (ep m ev : Nat)
